@@ -35,6 +35,7 @@ package graphsync
 //@   acquires {C20} requestIDToChannelIDMap.lk
 //@   reads
 //@   ensures [lookup] untouched
+//@   ensures [lookup-result] result1 == has(m.m, key) && (result1 ==> result0 == m.m[key].channelID) -- the answer is the stored mapping of exactly this request id, and 'unknown' exactly if there is none
 //@ func (*graphsync.requestIDToChannelIDMap).set {C16,C20}
 //@   acquires {C20} requestIDToChannelIDMap.lk
 //@   modifies m.m
@@ -122,6 +123,7 @@ package graphsync
 //@   ensures [unknown-request] !ret(requestIDToChannelIDMap.load, 1) ==> untouched
 //@   ensures [routed] all(EventsHandler.OnSendDataError, $1 == ret(requestIDToChannelIDMap.load, 0) && $2 == gserr) && all(requestIDToChannelIDMap.load, $1 == request.ID()) &&
 //@       only(requestIDToChannelIDMap.load, EventsHandler.OnSendDataError)
+//@   ensures [reported-once] ret(requestIDToChannelIDMap.load, 1) ==> calls(EventsHandler.OnSendDataError) == 1
 
 //@ func (*graphsync.Transport).gsNetworkReceiveErrorListener {C16}
 //@   acquires {C20} graphsync.requestIDToChannelIDMap.lk
@@ -137,6 +139,8 @@ package graphsync
 //@   ensures [unknown-request] !ret(requestIDToChannelIDMap.load, 1) ==> untouched
 //@   ensures [routed] all(Transport.getDTChannel, $1 == ret(requestIDToChannelIDMap.load, 0)) && all(requestIDToChannelIDMap.load, $1 == request.ID()) &&
 //@       all(dtChannel.onRequesterCancelled, $0 == ret(Transport.getDTChannel, 0)) && only(requestIDToChannelIDMap.load, Transport.getDTChannel, dtChannel.onRequesterCancelled)
+//@   ensures [marks-known-channel] {C16,C10} ret(requestIDToChannelIDMap.load, 1) ==> calls(Transport.getDTChannel) == 1 && calls(dtChannel.onRequesterCancelled) == (ret(Transport.getDTChannel, 1) == nil ? 1 : 0)
+//@       -- the requester's cancel is recorded on the channel whenever the channel is still tracked (that is what makes later messages queue for its next request)
 
 //@ func (*graphsync.Transport).processExtension {C05,C16}
 //@   ensures [results] {C16,C04} (calls(GetTransferData) == 1 && ret(GetTransferData, 1) != nil ==> result1 == ret(GetTransferData, 1) && result0 == nil) &&
@@ -175,6 +179,8 @@ package graphsync
 //@   ensures [reply-travels-back] {C16} calls(Transport.processExtension) >= 1 ==> calls(ToExtensionData) == (ret(Transport.processExtension, 0) != nil ? 1 : 0) &&
 //@       all(ToExtensionData, $0 == ret(Transport.processExtension, 0)) &&
 //@       (calls(ToExtensionData) == 1 && ret(ToExtensionData, 1) == nil ==> calls(IncomingResponseHookActions.UpdateRequestWithExtensions) == len(ret(ToExtensionData, 0)))
+//@   ensures [unencodable-reply-terminates] {C16,C12} calls(ToExtensionData) == 1 && ret(ToExtensionData, 1) != nil ==>
+//@       calls(IncomingResponseHookActions.TerminateWithError) == 1 && never(IncomingResponseHookActions.UpdateRequestWithExtensions) && calls(Transport.processExtension) == 1
 //@   acquires {C20} channels.progressCache.lk, graphsync.Transport.dtChannelsLk, graphsync.dtChannel.lk, graphsync.dtChannel.optionsLk, graphsync.requestIDToChannelIDMap.lk, registry.Registry.registryLk, transportoptions.TransportOptions.optionsLk
 //@   loop 0 invariant [extensions] $i >= 0 && calls(IncomingResponseHookActions.UpdateRequestWithExtensions) == $i
 //@   requires response != nil && hookActions != nil && t.events != nil
@@ -228,6 +234,7 @@ package graphsync
 //@   ensures [same-name] all(GraphExchange.RegisterPersistenceOption, $1 == "data-transfer-" + c.channelID.String()) && calls(GraphExchange.RegisterPersistenceOption) == 1
 //@   guarantee [registered-iff-ok] self.storeRegistered == (old(self.storeRegistered) || ret(GraphExchange.RegisterPersistenceOption, 0) == nil)
 //@ func (*graphsync.dtChannel).onRequesterCancelled {C16,C10,C20}
+//@   requires c != nil
 //@   acquires {C20} dtChannel.lk
 //@   modifies c.requesterCancelled
 //@   guarantee [marks] self.requesterCancelled && self.requestID == old(self.requestID) && self.isOpen == old(self.isOpen)
@@ -276,6 +283,10 @@ package graphsync
 //@   modifies c.completed, c.isOpen, c.requestID
 //@   acquires {C20} graphsync.dtChannel.lk
 //@   cancellable ctx
+//@ func (*graphsync.dtChannel).open$1$1 {C10,C09}
+//@   requires *completed != nil
+//@   ensures [signals-completion] calls(close) == 1 && all(close, $0 == *completed)
+//@       -- completing the graphsync request closes the channel that a restart (dtChannel.open) and shutdown wait on before re-opening
 //@ func (*graphsync.dtChannel).close {C09,C20}
 //@   ensures [no-live-request-after-close] {C09} c.requestID == nil || c.requesterCancelled -- closing always cancels (and forgets) a live request
 //@   prompt {C09} -- closing returns promptly whatever the state of the request: every wait has an answer promised
@@ -334,7 +345,9 @@ package graphsync
 //@   acquires {C20} graphsync.dtChannel.optionsLk
 //@ func (*graphsync.requestIDToChannelIDMap).any {C20}
 //@   acquires {C20} graphsync.requestIDToChannelIDMap.lk
-//@   loop 0 invariant [scan] $i >= 0
+//@   loop 0 invariant [scan] $i >= 0 && (forall j int :: 0 <= j && j < $i ==> !has(m.m, ks[j]))
+//@   ensures [first-known] (result1 ==> (exists j int :: 0 <= j && j < len(ks) && has(m.m, ks[j]) && result0 == m.m[ks[j]].channelID)) &&
+//@       (!result1 ==> (forall j int :: 0 <= j && j < len(ks) ==> !has(m.m, ks[j]))) -- a channel is answered only for a request id that is mapped; 'unknown' only if none of them is
 //@ func (*graphsync.Transport).gsReqRecdHook {C16,C20,C05}
 //@   ensures [accepted-is-validated] {C16,C04} calls(Transport.trackDTChannel) == 1 && (calls(ToExtensionData) == 1 ==> ret(ToExtensionData, 1) == nil) &&
 //@       (calls(EventsHandler.OnRequestReceived) == 1 ==> ret(EventsHandler.OnRequestReceived, 1) == nil || ret(EventsHandler.OnRequestReceived, 1) == datatransfer.ErrPause) &&
@@ -347,6 +360,10 @@ package graphsync
 //@           calls(IncomingRequestHookActions.ValidateRequest) == 0 || calls(IncomingRequestHookActions.PauseResponse) >= 1)
 //@       -- a request that re-opens a channel whose transfer was never un-paused (eg still unsealing) starts its response paused
 //@   ensures [started-or-paused] {C11} all(EventsHandler.OnContextAugment, (*ret(Transport.trackDTChannel, 0)).xferStarted || calls(IncomingRequestHookActions.PauseResponse) >= 1)
+//@   ensures [paused-is-not-started] {C11,C10} calls(IncomingRequestHookActions.PauseResponse) >= 1 &&
+//@       (calls(EventsHandler.OnRequestReceived) == 1 && all(EventsHandler.OnRequestReceived, !(*ret(Transport.trackDTChannel, 0)).xferStarted) ||
+//@        calls(EventsHandler.OnResponseReceived) == 1 && all(EventsHandler.OnResponseReceived, !(*ret(Transport.trackDTChannel, 0)).xferStarted)) ==>
+//@       !(*ret(Transport.trackDTChannel, 0)).xferStarted -- a response that starts paused does not count as started: the next restart request must start paused too
 //@   ensures [pauses-only-for-cause] {C11} calls(IncomingRequestHookActions.PauseResponse) <= 1 &&
 //@       all(EventsHandler.OnRequestReceived, calls(IncomingRequestHookActions.PauseResponse) == 1 ==> ret(EventsHandler.OnRequestReceived, 1) == datatransfer.ErrPause ||
 //@           ((*ret(Transport.trackDTChannel, 0)).isOpen && !(*ret(Transport.trackDTChannel, 0)).xferStarted))
@@ -432,6 +449,9 @@ package graphsync
 
 //@ func (*graphsync.dtChannel).cancel$1 {C09,C20}
 //@   ensures [not-found-is-success] {C09} calls(GraphExchange.Cancel) == 1 && all(GraphExchange.Cancel, $2 == **requestID)
+//@   ensures [answer] {C09} calls(send) == 1 && all(send, $0 == *errch && ($1 == nil) == (ret(GraphExchange.Cancel, 0) == nil || (calls(errors.Is) == 1 && ret(errors.Is, 0)))) &&
+//@       all(errors.Is, $0 == ret(GraphExchange.Cancel, 0) && dyntype_is($1, graphsync.RequestNotFoundErr))
+//@       -- the one answer is nil exactly if the request was cancelled or was already gone; any other failure is reported to whoever waits for the cancel
 //@   requires *c != nil && *requestID != nil && *ctx != nil
 //@   promises *errch {C09} -- one answer on every path (the cancel call itself is assumed to return: dependency)
 //@ func (*graphsync.Transport).getRestartExtension {C10}
